@@ -200,7 +200,25 @@ pub async fn c06_server_case(plan: &Value) -> Outcome {
     let trunc = case.get("truncate_at").and_then(|t| t.as_u64()).map(|t| t as usize);
     let truncated = matches!(trunc, Some(t) if t < full);
     let target: SocketAddr = SocketAddr::new("203.0.113.7".parse().unwrap(), plan["target_port"].as_u64().unwrap_or(80) as u16);
-    if truncated {
+    // silence, then frames: only when what was sent before the silence cannot be the start of a valid preamble
+    // that the frames' bytes would merely complete (cut inside the hash, or a wrong hash)
+    let resume_ms = plan["resume_after_ms"].as_u64().unwrap_or(0);
+    let hash_right = crate::checks::c06::case_hash(case) == crate::checks::c06::sha(crate::checks::c06::PW);
+    let resume_cut = if truncated { trunc.unwrap() } else { std::cmp::min(plan["resume_cut"].as_u64().unwrap_or(0) as usize, full) };
+    let resume = resume_ms > 0 && !accept && (resume_cut < 32 || !hash_right);
+    let mut later: Vec<u8> = Vec::new();
+    if resume {
+        bytes.truncate(resume_cut);
+        later.extend(rc::encode(rc::SETTINGS, 0, b"v=2\nclient=raw\npadding-md5=x"));
+        later.extend(rc::encode(rc::SYN, 1, b""));
+        let mut dest = vec![0x01u8];
+        if let IpAddr::V4(ip) = target.ip() {
+            dest.extend_from_slice(&ip.octets());
+        }
+        dest.extend_from_slice(&target.port().to_be_bytes());
+        later.extend(rc::encode(rc::PSH, 1, &dest));
+        later.extend(rc::encode(rc::PSH, 1, b"hello"));
+    } else if truncated {
         bytes.truncate(trunc.unwrap());
     } else {
         // a perfectly well-formed session start: Settings, SYN, destination
@@ -236,6 +254,12 @@ pub async fn c06_server_case(plan: &Value) -> Outcome {
     if tls.write_all(&bytes).await.is_err() || tls.flush().await.is_err() {
         // the server may already have hung up on a bad hash; fine
     }
+    if resume {
+        anytls_simnet::world::fault_fired("peer.long_silence_inside_preamble");
+        sleep(Duration::from_millis(resume_ms)).await;
+        let _ = tls.write_all(&later).await;
+        let _ = tls.flush().await;
+    }
     let end = case["end"].as_str().unwrap_or("eof");
     // read whatever plaintext the server sends for 20 virtual seconds
     let mut reply: Vec<u8> = Vec::new();
@@ -243,7 +267,7 @@ pub async fn c06_server_case(plan: &Value) -> Outcome {
     let deadline = tokio::time::Instant::now() + Duration::from_secs(20);
     let mut shut = false;
     loop {
-        if truncated && end == "eof" && !shut {
+        if truncated && end == "eof" && !shut && !resume {
             let _ = tls.shutdown().await;
             shut = true;
         }
@@ -255,7 +279,7 @@ pub async fn c06_server_case(plan: &Value) -> Outcome {
     let d = dials();
     let conns = internet.snapshot();
     let kind = case["kind"].as_str().unwrap_or("");
-    let fam = if truncated { "truncated" } else { kind };
+    let fam = if resume { "silence-then-frames" } else if truncated { "truncated" } else { kind };
     if accept {
         let dialed_ok = d.iter().any(|(_, a, o)| *a == target && *o == "ok");
         let got_hello = conns.iter().any(|c| c.dialed == Some(target) && c.received == b"hello");
